@@ -159,7 +159,8 @@ type concreteOp struct {
 	kind  string
 	name  string
 	clock int64
-	n     *pb.Notification
+	n     *pb.Notification // clone taken before the call
+	orig  *pb.Notification // the object that was handed to the cache (the caller keeps it)
 	msg   string
 }
 
@@ -824,7 +825,7 @@ func (w *world) stepNoti(i int, name string, spec *Noti) {
 	others := w.snapshotOthers(name)
 	feedFrom := len(w.feed)
 
-	w.log = append(w.log, concreteOp{kind: "noti", name: name, clock: w.clock, n: clone})
+	w.log = append(w.log, concreteOp{kind: "noti", name: name, clock: w.clock, n: clone, orig: n})
 	var err error
 	if tg := w.c.GetTarget(name); w.direct && tg != nil {
 		// the exported per-target entry point (what Cache.GnmiUpdate dispatches to)
@@ -837,6 +838,14 @@ func (w *world) stepNoti(i int, name string, spec *Noti) {
 	// C03 (5): the caller's notification is untouched
 	if !proto.Equal(n, clone) {
 		w.fail("C03", "step %d: the submitted notification was modified: before %v after %v", i, clone, n)
+	}
+	// ... and so is every notification handed over in an earlier call (the cache may keep the caller's
+	// object; it must not write to it later either). Notifications that share prefix/path objects with
+	// this one are compared as well: they alias by design of the scenario, the cache must not care.
+	for j := len(w.log) - 2; j >= 0 && j >= len(w.log)-40; j-- {
+		if op := w.log[j]; op.orig != nil && !proto.Equal(op.orig, op.n) {
+			w.fail("C03", "step %d: a notification submitted in an earlier call was modified afterwards: it was %v and now reads %v", i, op.n, op.orig)
+		}
 	}
 	w.checkSpare(i)
 	// C14: nothing stored or reported for another target changed
